@@ -113,3 +113,197 @@ Example C10_axes_nonvacuous :
   = Ok [mkAxis "t" (Some "time") None None None None None (Some (Fin 102400));
         mkAxis "x" None None None None (Some (Fin 512)) None None].
 Proof. vm_compute. reflexivity. Qed.
+
+(* ---------------------------------------------------------------------------------------------------------------
+   THE FULL METADATA OBJECT (theories/MetaBridge.v): the pipeline of write_arrays on the pydantic object of Meta.v
+   (stored_md : wgraph -> Meta.metadata -> res Meta.metadata), its abstraction to the smeta of the store models
+   (abs, parametric in the interning of the opaque fields), and the composition with C07 (invariants), C08 (published
+   schema, zarr-attribute round trip) and C01 (write, validate, read back).  From here on unqualified record fields
+   are those of Meta.v; the store-side ones are written Tree.xxx / Write.xxx. *)
+From Geff Require Import MetaLemmas Json Schema MetaJson MetaJsonLemmas MetaBridge MetaBridgeLemmas.
+From Geff.Gen Require Import Schema.
+
+(* the reduced pipeline (every theorem above) run on the abstraction IS the abstraction of the full pipeline: it fails
+   with the same exception, or stores the abstraction of the full result -- for every interning of the opaque fields.
+   Hypotheses: the caller's object passes its own model validator, its two dicts have distinct keys (python dicts),
+   and the axis coordinates are inside the exact number model (numeric dtype, floats multiples of 2^-10, |int| < 2^53). *)
+Theorem C10_full_simulation : forall I g m,
+  md_after_ok m = true -> dict_keys_ok m = true -> coords_exact g m = true ->
+  final_metadata g (abs I m) = rmap (abs I) (stored_md g m).
+Proof. exact simulation. Qed.
+Print Assumptions C10_full_simulation.
+
+(* the same as a refinement: whatever smeta the harness abstracts the caller's object to (any interning), the reduced and the full
+   pipeline fail together with the same exception, or their results are again related *)
+Theorem C10_full_simulation_refines : forall g m s,
+  refines m s -> md_after_ok m = true -> dict_keys_ok m = true -> coords_exact g m = true ->
+  match final_metadata g s, stored_md g m with
+  | Ok s', Ok m' => refines m' s'
+  | Err e, Err e' => e = e'
+  | _, _ => False
+  end.
+Proof. exact simulation_refines. Qed.
+Print Assumptions C10_full_simulation_refines.
+
+(* exactly one entry per stored property; each entry is the caller's entry with dtype / varlength replaced by those of
+   the written data and identifier, unit, name, description KEPT, or else a fresh entry without them *)
+Theorem C10_full_props : forall g m m' n e,
+  wf_input g (abs I0 m) n e -> stored_md g m = Ok m' ->
+  (forall k, In k (map fst (md_node_props m')) <-> In k (names_of (nps_of g m))) /\
+  (forall k, In k (map fst (md_edge_props m')) <-> In k (names_of (w_eprops g))) /\
+  (forall name p pm, In (name, p) (match nps_of g m with Some ps => ps | None => [] end) ->
+     create_props_metadata name p = Ok pm ->
+     alookup name (md_node_props m') =
+     Some (match alookup name (md_node_props m) with
+           | Some old => mkPM (pm_identifier old) (dtype_name (Tree.pm_dtype pm)) (Tree.pm_varlength pm)
+                              (pm_unit old) (pm_name old) (pm_description old)
+           | None => mkPM name (dtype_name (Tree.pm_dtype pm)) (Tree.pm_varlength pm) None None None
+           end)) /\
+  (forall name p pm, In (name, p) (match w_eprops g with Some ps => ps | None => [] end) ->
+     create_props_metadata name p = Ok pm ->
+     alookup name (md_edge_props m') =
+     Some (match alookup name (md_edge_props m) with
+           | Some old => mkPM (pm_identifier old) (dtype_name (Tree.pm_dtype pm)) (Tree.pm_varlength pm)
+                              (pm_unit old) (pm_name old) (pm_description old)
+           | None => mkPM name (dtype_name (Tree.pm_dtype pm)) (Tree.pm_varlength pm) None None None
+           end)).
+Proof. exact full_props. Qed.
+Print Assumptions C10_full_props.
+
+(* caller fields that do not depend on the data are stored unchanged, FIELD BY FIELD (no token): geff_version, directed,
+   sphere, ellipsoid, track_node_props, related_objects, display_hints, extra; per axis name, type, unit, scale,
+   scaled_unit, offset (axis_kept); per caller entry identifier, unit, name, description (entry_kept) -- for ANY input *)
+Theorem C10_full_passthrough : forall g m m',
+  stored_md g m = Ok m' ->
+  md_version m' = md_version m /\ md_directed m' = md_directed m /\
+  md_sphere m' = md_sphere m /\ md_ellipsoid m' = md_ellipsoid m /\
+  md_track m' = md_track m /\ md_related m' = md_related m /\
+  md_hints m' = md_hints m /\ md_extra m' = md_extra m /\
+  match md_axes m with
+  | None => md_axes m' = None
+  | Some axes => exists axes', md_axes m' = Some axes' /\ Forall2 axis_kept axes axes'
+  end /\
+  (forall k old, In (k, old) (md_node_props m) -> exists new, In (k, new) (md_node_props m') /\ entry_kept old new) /\
+  (forall k old, In (k, old) (md_edge_props m) -> exists new, In (k, new) (md_edge_props m') /\ entry_kept old new).
+Proof. exact full_passthrough. Qed.
+Print Assumptions C10_full_passthrough.
+
+(* each axis of a non-empty graph gets (np.min, np.max) of its non-missing coordinates, whatever range the caller gave
+   (extrema_spec: the least / greatest decoded coordinate; NaN for both as soon as one coordinate is NaN; the python float
+   of the integer extrema for integer coordinates), an axis of an empty graph is stored as the caller gave it *)
+Theorem C10_full_minmax : forall g m m' axes ps,
+  stored_md g m = Ok m' -> md_axes m = Some axes -> nps_of g m = Some ps ->
+  exists axes', md_axes m' = Some axes' /\ Forall2 (axis_truthful_full (up_nprops ps)) axes axes'.
+Proof. exact stored_minmax. Qed.
+Print Assumptions C10_full_minmax.
+
+(* C07 across the write: the stored object satisfies the format's invariants in the form the code tests them
+   (InvW: not (min > max)), for EVERY graph -- NaN and infinite coordinates included *)
+Theorem C10_stored_invariants : forall g m m', InvW m -> stored_md g m = Ok m' -> InvW m'.
+Proof. exact stored_InvW. Qed.
+Print Assumptions C10_stored_invariants.
+
+(* the property's own form (Inv: min <= max) is preserved when no coordinate is NaN ... *)
+Theorem C10_stored_invariants_partial : forall g m m',
+  Inv m -> coords_nan_free g m = true -> stored_md g m = Ok m' -> Inv m'.
+Proof. exact stored_Inv. Qed.
+Print Assumptions C10_stored_invariants_partial.
+
+(* ... and not otherwise (open finding nan-axis-bound, seen from the writer): a caller object satisfying every invariant,
+   one NaN coordinate; write_arrays succeeds with structure validation on and stores min = max = NaN -- min <= max fails
+   and the stored document is rejected by the published schema *)
+Theorem C10_stored_nan_refuted :
+  Inv nan_m /\ inv_md nan_m = true /\ dict_keys_ok nan_m = true /\
+  snd (Write.run (write_arrays KObj nan_g (abs I0 nan_m) true false) None) = Ok tt /\
+  stored_md nan_g nan_m = Ok nan_m' /\ ~ Inv nan_m' /\
+  validates schema_published (wrap (to_json nan_m')) = false.
+Proof. exact stored_nan_refuted. Qed.
+Print Assumptions C10_stored_nan_refuted.
+
+(* C08 across the write: a caller object in the domain of C08 (valid, finite numbers) and finite coordinates (no NaN, no
+   inf; nothing else is asked of the graph): the stored object is in that domain again, hence satisfies the invariants, its
+   document model_dump(mode="json") validates against the PUBLISHED schema, and GeffMetadata.read of the group it was
+   written to returns that very object, whatever else the group's attributes hold *)
+Theorem C10_stored_schema_valid : forall g m m',
+  inv_md m = true -> coords_finite g m = true -> stored_md g m = Ok m' ->
+  InvW m' /\
+  validates schema_published (wrap (to_json m')) = true /\
+  (forall gv st, md_read gv (md_write m' st) = Ok m' /\ attr_get "geff" (md_write m' st) = Some (to_json m')).
+Proof. exact stored_valid. Qed.
+Print Assumptions C10_stored_schema_valid.
+
+Theorem C10_stored_domain : forall g m m',
+  inv_md m = true -> coords_finite g m = true -> stored_md g m = Ok m' -> inv_md m' = true.
+Proof. exact stored_inv_md. Qed.
+Print Assumptions C10_stored_domain.
+
+(* C01 + C10 + C07 + C08 on one store: write_arrays succeeds, structural validation passes, read_to_memory returns the
+   graph with the abstraction of m', and m' has the three properties above *)
+Theorem C10_end_to_end : forall I k pre g m m' n e ov,
+  clean k pre -> wf_input g (abs I m) n e ->
+  inv_md m = true -> dict_keys_ok m = true -> coords_exact g m = true ->
+  stored_md g m = Ok m' ->
+  exists tr post,
+    write_arrays k g (abs I m) true ov (init pre) = (mkst (Some post) tr, Ok tt) /\
+    validate_structure k (Some post) = Ok tt /\
+    read_to_memory k (Some post) true None None
+      = Ok (mkmg (abs I m') (w_nids g) (w_eids g) (up_props (nps_of g m)) (up_props (w_eprops g))) /\
+    inv_md m' = true /\ InvW m' /\
+    validates schema_published (wrap (to_json m')) = true /\
+    (forall gv st, md_read gv (md_write m' st) = Ok m').
+Proof. exact end_to_end. Qed.
+Print Assumptions C10_end_to_end.
+
+(* the pieces of the pipeline are the helper models C07 ties to the code: the entries handed over pass PropMetadata's
+   validators unchanged, and add_props is Meta.add_or_update_props_metadata on their dumps *)
+Theorem C10_full_uses_helpers : forall m ops (node : bool),
+  add_or_update_props_metadata m (JList (map pm_to_json (new_entries ops))) (JStr (if node then "node" else "edge"))
+  = Ok (add_props m (new_entries ops) node).
+Proof. exact add_props_is_helper. Qed.
+Print Assumptions C10_full_uses_helpers.
+
+(* non-vacuity: the example graph of C01 with a caller object that uses every field: a stale range and wrong dtype /
+   varlength in the caller's entries are replaced, everything else is kept *)
+Definition full_m : metadata :=
+  mkMD "0.9.1" true
+    (Some [mkAxis "x" (Some "space") (Some "micrometer") (Some (Fin 0)) (Some (Fin 9216)) (Some (Fin 512)) (Some "nanometer")
+                  (Some (Fin (-1536)))])
+    [("x", mkPM "x" "int8" true (Some "um") (Some "X pos") (Some "the x coordinate"))]
+    [("w", mkPM "w" "float32" false None (Some "weight") None)]
+    (Some "m") None (Some [("lineage", "v")]) (Some [mkRO "labels" "../seg" (Some "m")])
+    (Some (mkDH "x" "x" None None))
+    [("k", JInt 7); ("f", JFlt (Fin 512))].
+
+Definition full_m' : metadata :=
+  mkMD "0.9.1" true
+    (Some [mkAxis "x" (Some "space") (Some "micrometer") (Some (Fin (-512))) (Some (Fin 1536)) (Some (Fin 512)) (Some "nanometer")
+                  (Some (Fin (-1536)))])
+    [("x", mkPM "x" "float64" false (Some "um") (Some "X pos") (Some "the x coordinate"));
+     ("m", mkPM "m" "float32" false None None None); ("v", mkPM "v" "int8" true None None None)]
+    [("w", mkPM "w" "str" false None (Some "weight") None)]
+    (Some "m") None (Some [("lineage", "v")]) (Some [mkRO "labels" "../seg" (Some "m")])
+    (Some (mkDH "x" "x" None None))
+    [("k", JInt 7); ("f", JFlt (Fin 512))].
+
+Example C10_full_nonvacuous :
+  wf_input C01.ex_g (abs I0 full_m) 2 1 /\ inv_md full_m = true /\ md_after_ok full_m = true /\ dict_keys_ok full_m = true /\
+  coords_exact C01.ex_g full_m = true /\ coords_finite C01.ex_g full_m = true /\
+  stored_md C01.ex_g full_m = Ok full_m' /\
+  final_metadata C01.ex_g (abs I0 full_m) = Ok (abs I0 full_m') /\
+  validates schema_published (wrap (to_json full_m')) = true.
+Proof.
+  split; [|repeat split; vm_compute; reflexivity].
+  constructor; try reflexivity.
+  - intros ps Hps. vm_compute in Hps. inversion Hps; subst ps; clear Hps. split.
+    + repeat constructor; cbn; intuition discriminate.
+    + repeat constructor; try (eexists; eexists; split; vm_compute; reflexivity);
+        try (cbn; eexists; reflexivity); cbn; auto.
+      all: try (unfold wf_varr; reflexivity).
+  - intros ps Hps. inversion Hps; subst ps; clear Hps. split.
+    + repeat constructor; cbn; intuition.
+    + repeat constructor; try (eexists; eexists; split; vm_compute; reflexivity); try (cbn; eexists; reflexivity); cbn; auto.
+  - intros k0 H. vm_compute in H. destruct H as [<-|[]]. vm_compute. auto.
+  - intros k0 H. vm_compute in H. destruct H as [<-|[]]. vm_compute. auto.
+  - intros axes Hax. vm_compute in Hax. inversion Hax; subst axes; clear Hax. eexists. split; [vm_compute; reflexivity|].
+    intros ax [<-|[]]. eexists; eexists. split; [left; reflexivity | reflexivity].
+Qed.
